@@ -141,31 +141,22 @@ def c17d(ctx, tu):
     for fn in tu.need("trompeloeil::tracer::tracer"):
         if fn.rec.get("special"):
             continue
-        inits = [e for b, e in fn.events() if e["e"] == "init" and e.get("field") == "trompeloeil::tracer::previous"]
+        PREV = lib.peer_roles(tu).get("prev_tracer", "trompeloeil::tracer::previous")
+        inits = [e for b, e in fn.events() if e["e"] == "init" and erase(e.get("field", "")) == PREV]
         ok = len(inits) == 1 and lib.tree_name(inits[0]["x"]) == A["set_tracer"] and inits[0]["x"][3] == [["this"]]
         ctx.ob("C17.d", "trompeloeil::tracer::tracer", ok, pattern=fn.pat, unit=tu.name,
                detail="" if ok else "a new tracer must install itself and remember the previously active one")
     for fn in tu.need("trompeloeil::tracer::~tracer"):
         calls = [e for b, e in fn.events() if e["e"] == "call" and qe(e) == A["set_tracer"]]
         a0 = calls[0]["args"][0] if len(calls) == 1 and calls[0].get("args") else None
-        ok = isinstance(a0, list) and a0[:1] == ["member"] and erase(a0[1]) == "trompeloeil::tracer::previous"
+        ok = isinstance(a0, list) and a0[:1] == ["member"] and \
+            erase(a0[1]) == lib.peer_roles(tu).get("prev_tracer", "trompeloeil::tracer::previous")
         ctx.ob("C17.d", "trompeloeil::tracer::~tracer", ok, pattern=fn.pat, unit=tu.name,
                detail="" if ok else "a dying tracer must put the previously active tracer (or none) back in effect")
     for fn in tu.need(A["set_tracer"]):
-        # returns the old value, stores the new one
-        rets = [e.get("x") for b, e in fn.events() if e["e"] == "return"]
-        decls = {e["var"]: e for b, e in fn.events() if e["e"] == "decl"}
-        assigns = [e for b, e in fn.events() if e["e"] == "assign"]
-        ok = len(rets) == 1 and rets[0][:1] == ["var"] and len(assigns) == 1 and assigns[0]["rhs"][:2] == ["param", 0]
-        if ok:
-            rv = decls.get(rets[0][1])
-            refv = decls.get(assigns[0]["lhs"][1]) if assigns[0]["lhs"][:1] == ["var"] else None
-            ok = rv is not None and refv is not None and lib.tree_name(refv.get("init")) == A["tracer_obj"] and \
-                rv.get("init", [None])[:2] == ["var", assigns[0]["lhs"][1]]
-            # the old value is read before the new one is stored
-            order = [e["e"] + str(e.get("var", "")) for b, e in sorted(fn.events(), key=lambda be: -be[0]["id"])
-                     if e["e"] in ("decl", "assign")]
-            ok = ok and order.index("decl%d" % rets[0][1]) < order.index("assign")
+        # returns the old value, stores the new one (exchange(), or save / assign / return through any alias)
+        from rules import C16
+        ok, _why = C16.returns_previous(fn, "tracer_obj")
         ctx.ob("C17.d", A["set_tracer"], ok, pattern=fn.pat, unit=tu.name,
                detail="" if ok else "set_tracer must store the new tracer and return the one that was active before")
     # who touches the current-tracer object
